@@ -51,7 +51,7 @@ REQUIRED_THEOREMS = ['Yaql.Props.C12.call_equiv', 'Yaql.Props.C12.ext_both_ways'
                      'Yaql.Props.C12Gen.registered_names_converted', 'Yaql.Props.C12.call_filter_nonkeywords',
                      'Yaql.Props.C12.call_resolver_input', 'Yaql.Props.C12.camel_of_python',
                      'Yaql.Props.C12.toCamel_fixed', 'Yaql.Props.C12.toCamel_idempotent',
-                     'Yaql.Props.C12.not_call_junk_invariant_full']
+                     'Yaql.Props.C12.call_junk_invariant', 'Yaql.Props.C12.call_nonstring_key_dropped']
 TRUSTED = ['harness/gens/registry.py (the dump of the live registry; the reading of decorators from the source text with ast)',
            'the typed value corpus and the canonicalisation of results (harness/values.py)',
            'harness/c12_worker.py (contexts created in the stated order before anything else in that interpreter)']
@@ -437,7 +437,7 @@ class Sink:
 # keys of a kwargs dict that are no keywords under ANY reading (not an identifier, or a dunder name): call() has to
 # behave as if they were not there
 JUNK_STR = ['', '__x', '__', '__init__', '1a', '0', ' a', '-x', '=>', '#len', '$', '.', '\n', '1_000']
-# not even strings
+# not even strings (dropped like the others since d6863d4; before, is_keyword raised TypeError on them)
 JUNK_OTHER = [('int', lambda: 1), ('none', lambda: None), ('true', lambda: True), ('tuple', lambda: (1, 2)),
               ('float', lambda: 1.5)]
 # names that ARE keywords: a function with **kwargs must see them through call() as it sees them directly
@@ -458,6 +458,8 @@ def junk_sets(rng, kwnames):
     k = rng.choice(pool)
     out.append(('junk-last', [], [k]))
     ks = rng.sample(pool, min(len(pool), rng.randrange(2, 5)))
+    if rng.random() < 0.3:              # keys that are not even strings, among the others
+        ks.insert(rng.randrange(len(ks) + 1), rng.choice(JUNK_OTHER)[1])
     cut = rng.randrange(len(ks) + 1)
     out.append(('junk-many', ks[:cut], ks[cut:]))
     return out
@@ -540,7 +542,7 @@ def sweep_context(conv, root, rng, per_fd, sink, replay=None, model_reqs=None, w
                     direct = outs_u[i][1]
                     variants = [('call()', [], [])]
                     variants += junk_sets(crng, list(kwf))[:call_budget]
-                    if crng.random() < 0.15:
+                    if crng.random() < 0.5:
                         lab, mk = crng.choice(JUNK_OTHER)
                         variants.append(('nonstring:' + lab, [mk], []))
                     for vtag, first, lastk in variants:
@@ -559,7 +561,7 @@ def sweep_context(conv, root, rng, per_fd, sink, replay=None, model_reqs=None, w
                         outs.append((stag, direct))     # counted as a spelling; compared below against `direct`
                         bump('call:' + vtag.split(':')[0])
                         if o != direct:
-                            call_fail.append((stag, vtag, direct, o, [k if not callable(k) else vtag for k in first + lastk]))
+                            call_fail.append((stag, vtag, direct, o, [k if not callable(k) else '<%r>' % (k(),) for k in first + lastk]))
                 # a function with **kwargs: extra keywords arrive through call() as they arrive directly
                 if '**' in fd.parameters and not fd.no_kwargs and usable:
                     tag, _, argf, kwf = sp[usable[0]]
@@ -590,7 +592,7 @@ def sweep_context(conv, root, rng, per_fd, sink, replay=None, model_reqs=None, w
             sink.case(common.digest(case), resolved and len(outs) >= 2, sample=case)
             for stag, vtag, direct, o, keys in call_fail:
                 nonstring = vtag.startswith('nonstring:')
-                sink.fail('oracle', 'call-nonstring-key' if nonstring and o == 'err:TypeError' else 'call:' + name,
+                sink.fail('oracle', 'call-nonstring-key:' + name if nonstring else 'call:' + name,
                           '[%s context] %s %r spelling %s: made directly -> %s but call(%s, args, kwargs%s) -> %s' % (
                               conv, name, labels, stag.split('/')[0], direct[:100], name,
                               ' + keys %r that are no keywords' % (keys,) if keys else '', o[:100]),
@@ -932,7 +934,7 @@ def run(env, res):
 
 
 LEVEL_TEXT = ('Lean 4: call_equiv, ext_both_ways, kind_exclusive, spelling_kw_move / spelling_default_move over the model of '
-              'translate_args / get_delegate for every well-formed definition (WFDef); call_filter_nonkeywords / '
+              'translate_args / get_delegate for every well-formed definition (WFDef); call_junk_invariant (= call_junk_invariant_full) / '
               'call_resolver_input over the model of call()\'s keyword filter; toCamel_fixed / toCamel_idempotent / '
               'camel_of_python over the model of the naming conventions; generated-table theorems registry_wf, '
               'alias_convention, alias_convention_each, keyword_names_are_keywords, registered_names_converted (decide +kernel '
@@ -943,6 +945,7 @@ LEVEL_TEXT = ('Lean 4: call_equiv, ext_both_ways, kind_exclusive, spelling_kw_mo
               'model per spelling, and the naming / filtering functions against the model.')
 LEVEL_NOTE = ('trusted: Lean kernel; Model/Types, Resolve, RegistryRow, Naming; the registry dump; the corpus. spelling_equiv is '
               'proved per parameter move; the whole-vector statement (spelling_equiv_full) is not derived. '
-              'call_junk_invariant_full is refuted for keys that are not strings (known finding call-nonstring-key).')
+              'call_junk_invariant_full (keys that are no keywords, strings or not, never change call()) is proved for the '
+              'code since d6863d4.')
 TECHNIQUE = 'Lean 4 proof + generated registry tables (decide +kernel) + differential testing over the full registry'
 DESIGN_REF = 'DESIGN.md section 5, C12'
